@@ -5,6 +5,7 @@ CONSTANTS
   T = 3
   VerifyAttached = FALSE
   MaxMsgs = 2
+  Rep = {1, 3}
   MaxSet = 3
 VIEW View
 INVARIANT NotarizedOnlyWithQuorum
